@@ -385,7 +385,7 @@ func tableStr(t map[int][]int) string {
 // finalOracles: end-of-history checks.
 func (h *hist) finalOracles() {
 	for _, a := range h.nodes {
-		if h.badger != nil && a.ID == 0 {
+		if h.uncompared0 && a.ID == 0 {
 			continue // frames of old rounds are cache-only on the small-cache node (documented W4)
 		}
 		h.orderOracle(a)
